@@ -333,6 +333,8 @@ struct SeqOut {
 
 /// Run `steps` instructions of a case on the real machine and on REF-ISA in lock-step.
 /// None = agreement (or the run entered supervision territory, which is C05's).
+static LOCKSTEP_INSTRUCTIONS: std::sync::atomic::AtomicU64 = std::sync::atomic::AtomicU64::new(0);
+
 fn lockstep(case: &Case, steps: usize, mode: Mode) -> Option<(String, String, &'static str)> {
     let mut m = case.machine();
                 let mut c = case.cpu;
@@ -342,6 +344,7 @@ fn lockstep(case: &Case, steps: usize, mode: Mode) -> Option<(String, String, &'
                     return Some(("completion".to_string(), "no first boundary".to_string(), "?"));
                 }
                 for step in 0..steps {
+                    LOCKSTEP_INSTRUCTIONS.fetch_add(1, std::sync::atomic::Ordering::Relaxed);
                     let info = isa::step(&mut c, &mut mem, &mut latch);
                     if c.sp >= 0xF0 || info.sp_values.iter().any(|&s| s >= 0xF0) {
                         return None; // supervision territory (C05)
@@ -426,6 +429,51 @@ fn io_code(mode: Mode, full: bool) -> (Stats, u64) {
         instr += i;
     }
     (st, instr)
+}
+
+/// G6: the repository's programs (assembled by REF-ASM, so independent of the translator) run in
+/// lock-step with REF-ISA for up to `steps` instructions under several input settings: long
+/// histories of real code, stale micro-architectural state carried over thousands of instructions.
+fn repo_runs(mode: Mode, steps: usize) -> (Stats, u64, usize) {
+    let mut cases: Vec<(String, Case)> = vec![];
+    for (name, src) in crate::corpus::repo_programs() {
+        let image = match refmodel::mrasm::parse(&src).ok().and_then(|a| refmodel::asm::assemble(&a).ok()) {
+            Some(b) => b.bytes(),
+            None => continue,
+        };
+        if image.len() > 240 {
+            continue;
+        }
+        for (k, inputs) in [[0u8, 0, 0, 0], [0x12, 0x34, 0x56, 0x78], [0xFF, 0x01, 0x80, 0x7F]].iter().enumerate() {
+            let mut ram = [0u8; 240];
+            sw::place(&mut ram, 0, &image);
+            cases.push((format!("G6 {} inputs#{}", name, k), Case { cpu: Cpu { r: [0, 0, 0], pc: 0, fr: 0, sp: 0 }, scratch: (0, 0), ram, inputs: *inputs, di1: (k as u8) * 0x55 }));
+        }
+    }
+    let n = cases.len();
+    let before = LOCKSTEP_INSTRUCTIONS.load(std::sync::atomic::Ordering::Relaxed);
+    let outs = mc::par_map(&cases, |(group, case)| {
+        let mut st = Stats::default();
+        let res = mc::catch(|| lockstep(case, steps, mode));
+        st.evals += 1;
+        match res {
+            Ok(None) => st.changed += 1,
+            Ok(Some((key, what, _))) => {
+                let is_cycle = key.starts_with("cycles/");
+                if (mode == Mode::C15) == is_cycle {
+                    st.bad_case(format!("program/{}", key), case, format!("[{}] {}", group, what));
+                }
+            }
+            Err(p) => st.bad_case(format!("panic/{}", p.file()), case, format!("[{}] panic at {}: {}", group, p.site(), p.msg)),
+        }
+        st
+    });
+    let mut st = Stats::default();
+    for o in outs {
+        st.merge(o);
+    }
+    let _ = steps;
+    (st, LOCKSTEP_INSTRUCTIONS.load(std::sync::atomic::Ordering::Relaxed) - before, n)
 }
 
 /// G4: all instruction sequences up to `depth` from each start state, lock-step with REF-ISA.
@@ -578,6 +626,11 @@ pub fn run(mode: Mode) {
     st.merge(sst);
     st.merge(ist);
     ctx.set("io_page_code_runs", io_evals);
+    let (rst, rinstr, rn) = repo_runs(mode, if quick { 1500 } else { 20000 });
+    let seq_evals = seq_evals + rst.evals;
+    st.merge(rst);
+    ctx.set("repository_program_runs", rn as u64);
+    ctx.set("repository_program_instructions_in_lockstep", rinstr);
     for (key, (n, cases)) in &st.bad {
         for (line, what) in cases.iter().take(3) {
             ctx.violation(key.clone(), format!("{} ({} cases in class)", what, n), line.clone());
@@ -589,7 +642,7 @@ pub fn run(mode: Mode) {
     ctx.set("states", per_instr_evals - skipped + seq_evals);
     ctx.set("transitions", per_instr_evals - skipped + instr);
     ctx.set("traces_validated_against_impl", st.evals - skipped);
-    ctx.set("rule", "per-instruction: every point of the products G1 (reg-reg ALU ops x 16 register pairs x value pairs x carry-in, PC operands by placement), G2 (every other one-byte opcode x 256 values x 16 flags x upper FR bits x 4 SPs), G3 (16 first bytes x second bytes 0x00-0x7F x pointer-set^2 x placements x memory variants x flags); G4: every sequence of the alphabet up to the depth from 3 start states, compared after every instruction; G5: code executing out of the I/O page (every byte pair in the input registers FC/FD executed at PC=0xFC, every byte on the board input port executed at PC=0xF0), four instructions each. A case is non-trivial when the instruction changed more than the PC (sequences: ran to completion in lock-step).");
+    ctx.set("rule", "per-instruction: every point of the products G1 (reg-reg ALU ops x 16 register pairs x value pairs x carry-in, PC operands by placement), G2 (every other one-byte opcode x 256 values x 16 flags x upper FR bits x 4 SPs), G3 (16 first bytes x second bytes 0x00-0x7F x pointer-set^2 x placements x memory variants x flags); G4: every sequence of the alphabet up to the depth from 3 start states, compared after every instruction; G5: code executing out of the I/O page (every byte pair in the input registers FC/FD executed at PC=0xFC, every byte on the board input port executed at PC=0xF0), four instructions each; G6: the repository's programs, assembled by REF-ASM, in lock-step for up to 1 500 / 20 000 instructions under 3 input settings. A case is non-trivial when the instruction changed more than the PC (sequences: ran to completion in lock-step).");
     ctx.set("exhaustive", true);
     ctx.set("bounds", format!("tier={}; G1 value pairs: {}; sequence depth {} ({} sequences, {} instructions)", if quick { "quick" } else { "thorough" }, if quick { "boundary set^2 + complete 65536x2 tables for MUL and one rotated op" } else { "all 65536 pairs x carry-in for all 8 ops" }, depth, nseq, instr));
     let mut sk = Json::obj();
